@@ -23,7 +23,7 @@ def run():
     errors = []
     from . import index_exprs
     jobs = [('IndexExprs.lean', index_exprs.generate)]
-    for mod in ('constants', 'rotmodes', 'loops', 'colour', 'caches', 'effects'):
+    for mod in ('constants', 'rotmodes', 'loops', 'colour', 'caches', 'codec', 'effects'):
         try:
             m = __import__('harness.translate.' + mod, fromlist=['generate'])
             jobs.append((m.FILE, m.generate))
@@ -36,9 +36,15 @@ def run():
             errors.append('%s: translator crashed: %r' % (name, e))
             continue
         errors += ['%s: %s' % (name, e) for e in errs]
-        lines = text.split('\n')
-        k = max([i for i, l in enumerate(lines) if l.startswith('import ')] + [-1]) + 1
-        write_if_changed(name, '\n'.join(lines[:k] + [HEADER.rstrip('\n')] + lines[k:]))
+        files = text if isinstance(text, dict) else {name: text}
+        for fname, ftext in files.items():
+            lines = ftext.split('\n')
+            k = max([i for i, l in enumerate(lines) if l.startswith('import ')] + [-1]) + 1
+            write_if_changed(fname, '\n'.join(lines[:k] + [HEADER.rstrip('\n')] + lines[k:]))
+        if isinstance(text, dict):      # remove stale chunk files of an earlier, longer table
+            for old in os.listdir(GEN):
+                if old.startswith('EffectsChunk') and old not in files:
+                    os.remove(os.path.join(GEN, old))
     return errors
 
 
